@@ -594,6 +594,9 @@ pub fn groups(prop: &str, tier: &str) -> Vec<Group> {
                 Spec::single(vec![ret(cat(b("uppercase"), plus(b("lowercase")))), ret(plus(diff(b("alphanumeric"), b("uppercase")))), ret(plus(b("uppercase")))], "builtin_rules"),
                 Spec::single(vec![ret(plus(alt(b("lowercase"), ch('_')))), ret(cat(set(&[('0', '9'), ('a', 'b'), ('d', 'e'), ('g', 'h'), ('j', 'k'), ('m', 'n'), ('p', 'q'), ('s', 't'), ('v', 'w'), ('y', 'z'), ('A', 'Z')]), ch('!'))), ret(Re::Any)], "builtin_rules"),
             ];
+            let mut builtin_rules = builtin_rules;
+            builtin_rules.push(Spec::single(vec![ret(cat(plus(b("ascii_lowercase")), ch('.'))), ret(cat(plus(b("ascii_graphic")), ch('!'))), ret(Re::Any)], "builtin_rules"));
+            builtin_rules.push(Spec::single(vec![ret(b("lowercase")), ret(b("alphabetic")), ret(Re::Any)], "builtin_rules"));
             let pb = with(plan("C02", Proj::Tokens, if q { 4 } else { 5 }, 0), |p| p.alphabet = vec!['a', 'z', 'Z', '9', '_', '!', '.', 'é']);
             vec![Group { plan: plan("C02", Proj::Tokens, 6, 0), specs }, bound(&BETA1, if q { 40 } else { 300 }), bound(&BETA2, if q { 40 } else { 300 }), Group { plan: pb, specs: builtin_rules }]
         }
@@ -676,7 +679,21 @@ pub fn groups(prop: &str, tier: &str) -> Vec<Group> {
             let g4 = Group { plan: plan("C09", Proj::Progress, 6, 0), specs: sh };
             vec![Group { plan: p, specs }, g2, g3, g4]
         }
-        "C10" => vec![Group { plan: plan("C10", Proj::Full, if q { 5 } else { 6 }, 2), specs: kinds_family(true) }],
+        "C10" => {
+            let mut shapes: Vec<Spec> = after_accept_family().into_iter().step_by(if q { 9 } else { 2 }).collect();
+            shapes.extend(stale_family());
+            shapes.extend(eoi_family().into_iter().filter(|s| s.family == "eoi1"));
+            // `re` next to `re $` with every action kind on both
+            for k0 in KINDS7 {
+                for k1 in [Kind::Act(D_RETURN), Kind::Skip, Kind::Act(D_CONTINUE), Kind::Fallible(D_RETURN)] {
+                    shapes.push(Spec::single(vec![rule(st("ab"), k0), rule(cat(st("ab"), Re::Eoi), k1), ret(ch('a')), ret(ch('c'))], "eoi_kinds"));
+                }
+            }
+            vec![
+                Group { plan: plan("C10", Proj::Full, if q { 5 } else { 6 }, 2), specs: kinds_family(true) },
+                Group { plan: with(plan("C10", Proj::Full, 5, 1), |p| p.alphabet = vec!['a', 'b', 'c', 'x']), specs: shapes },
+            ]
+        }
         "C14" => {
             let mut specs = regress_single();
             specs.extend(pair_family());
@@ -738,6 +755,16 @@ pub fn groups(prop: &str, tier: &str) -> Vec<Group> {
             specs.push(simple(cat(diff(Re::Any, builtin("alphanumeric")), ch('x'))));
             // small classes padded with disjoint singletons to force a table
             specs.push(simple(cat(set(&[('0', '9'), ('b', 'b'), ('d', 'd'), ('f', 'f'), ('h', 'h'), ('j', 'j'), ('l', 'l'), ('n', 'n'), ('p', 'p'), ('r', 'r'), ('t', 't')]), ch('x'))));
+            // several built-ins as separate rules: the classes are split against each other
+            let multi = |names: &[&str]| Spec::single(names.iter().map(|n| rule(if *n == "_" { Re::Any } else { builtin(n) }, Kind::Simple)).collect(), "builtin_multi");
+            specs.push(multi(&["lowercase", "alphabetic", "_"]));
+            specs.push(multi(&["ascii_digit", "numeric", "alphanumeric", "XID_Continue"]));
+            specs.push(multi(&["uppercase", "XID_Start", "whitespace", "control"]));
+            specs.push(multi(&["ascii_hexdigit", "ascii_alphabetic", "ascii_graphic", "ascii", "alphabetic"]));
+            // chains of `#` (left-associative)
+            specs.push(simple(diff(diff(builtin("alphanumeric"), builtin("alphabetic")), builtin("ascii_digit"))));
+            specs.push(simple(cat(diff(diff(builtin("alphabetic"), builtin("lowercase")), builtin("uppercase")), ch('x'))));
+            specs.push(simple(cat(diff(diff(builtin("ascii_alphanumeric"), builtin("ascii_digit")), builtin("ascii_uppercase")), ch('x'))));
             let mut p = plan("C13", Proj::ClassSweep, 0, 0);
             p.sweep_all = true;
             p.check_probe_neutral = false;
@@ -752,6 +779,9 @@ pub fn groups(prop: &str, tier: &str) -> Vec<Group> {
             specs.extend(sets_family(6, &[2, 3, 5], true).into_iter().step_by(if q { 7 } else { 2 }));
             specs.extend(eoi_family().into_iter().step_by(if q { 9 } else { 3 }));
             specs.extend(kinds_family(false).into_iter().step_by(if q { 13 } else { 3 }));
+            for g in groups("C16", tier) {
+                specs.extend(g.specs);
+            }
             let mut p = plan("C12", Proj::Full, if q { 3 } else { 4 }, 0);
             p.check_probe_neutral = false;
             vec![Group { plan: p, specs }]
@@ -799,6 +829,19 @@ pub fn groups(prop: &str, tier: &str) -> Vec<Group> {
                 }
                 Spec { lets: lets(&[("t", ch('c'))]), sets, named: true, decl_order: vec![], family: "let_scope", set_names: vec![] }
             };
+            for (s0, s1) in [(ch('b'), ch('c')), (set(&[('b', 'c')]), Re::Eoi), (st("bc"), ch('b'))] {
+                specs.push(Spec {
+                    lets: lets(&[("t", ch('c'))]),
+                    sets: vec![
+                        RuleSet { lets: lets(&[("stop", s0)]), rules: vec![Rule { re: ch('a'), ctx: Some(var("stop")), kind: Kind::Act(d_switch_return(1)) }, ret(set(&[('a', 'c')]))] },
+                        RuleSet { lets: lets(&[("stop", s1)]), rules: vec![Rule { re: ch('a'), ctx: Some(var("stop")), kind: Kind::Act(d_switch_return(0)) }, ret(set(&[('a', 'c')]))] },
+                    ],
+                    named: true,
+                    decl_order: vec![],
+                    family: "let_scope_ctx",
+                    set_names: vec![],
+                });
+            }
             specs.push(mk(ch('a'), ch('b'), None));
             specs.push(mk(st("ab"), ch('a'), None));
             specs.push(mk(ch('a'), st("ab"), Some(set(&[('a', 'b')]))));
@@ -820,6 +863,9 @@ pub fn groups(prop: &str, tier: &str) -> Vec<Group> {
                 diff(alt(builtin("ascii_digit"), d('a', 'f')), ch('c')),
                 set(&[('a', 'a'), ('a', 'a')]),
                 set(&[('a', 'c'), ('b', 'b'), ('b', 'd'), ('a', 'a')]),
+                diff(set(&[('a', 'z'), ('c', 'e')]), ch('x')),
+                diff(Re::Any, set(&[('0', '9'), ('2', '3'), ('5', '5')])),
+                alt(set(&[('a', 'h'), ('c', 'd')]), ch('k')),
                 alt(d('a', 'c'), alt(ch('b'), d('b', 'e'))),
                 diff(d('a', 'e'), d('a', 'c')),
                 diff(d('a', 'e'), d('c', 'e')),
